@@ -8,10 +8,13 @@ is a token (a `Nat`, numbered in order of creation) and calling it puts the toke
 fields `connected` / `running` (the real ones are `uint64` that wrap; the harness prints the signed
 difference to the value at the start of the history).
 
-* `step`   – Impl model: the Go code path by path, including the `Threads_running` increment that
-             precedes the two error returns of `BeginQuery`, the missing decrement in
+* `step`   – Impl model: the Go code path by path, including the missing decrement in
              `RemoveConnection`, the fresh `Process` struct of `ConnectionReady` (drops `Kill`), and
              the `p.Kill()` nil call in `EndQuery` (a crash with the state half updated).
+             `BeginQuery` increments `Threads_running` *below* its two error returns (the repair of
+             finding F-C37-a, `begin_query_error_path`).
+* `stepPreFix` – `step` with the `BeginQuery` of the code before that repair (increment first, then
+             the two error returns). Kept only to state the witness `Gms.C37.fixed_begin_query_error_path`.
 * `astep`  – Spec: the abstract machine the property demands. Its state holds only the sessions
              with their current work and the cancelled tokens; the counters and the pid index are
              *derived* (`aConnected`, `aRunning`, `aByPid`). `none` = the event is outside the
@@ -121,9 +124,9 @@ def step (s : St) : Ev → St × Res
                 cancelled := cancelOpt s.cancelled p.kill,
                 byPid := erase s.byPid p.pid,
                 procs := erase s.procs c }, .done)
-  -- BeginQuery: `Threads_running`+1 *before* the two error returns
+  -- BeginQuery: the two error returns come first and change nothing; `Threads_running`+1 only on the
+  -- path that registers the query
   | .beginQ c pid =>
-    let s := { s with running := s.running + 1 }
     match lookup s.procs c with
     | none => (s, .errNotRegistered)
     | some _ =>
@@ -131,7 +134,8 @@ def step (s : St) : Ev → St × Res
       | some _ => (s, .errPidUsed)
       | none =>
         let tok := s.nextTok
-        ({ s with nextTok := tok + 1,
+        ({ s with running := s.running + 1,
+                  nextTok := tok + 1,
                   procs := insert s.procs c { cmd := .query, pid := pid, kill := some tok, query := some pid },
                   byPid := insert s.byPid pid c }, .ok tok)
   -- EndQuery: `delete(byQueryPid, pid)` first; `p.Kill()` is called without a nil check
@@ -181,6 +185,26 @@ def run : St → List Ev → List (St × Res)
   | s, e :: es => let r := step s e; r :: run r.1 es
 
 def exec (s : St) (es : List Ev) : St := es.foldl (fun s e => (step s e).1) s
+
+/-- `ProcessList` before the repair of F-C37-a: `BeginQuery` did `Threads_running`+1 *before* its two
+error returns, so a failed `BeginQuery` left the counter one too high. Every other method is `step`.
+Not the model of the code that exists; used by `Gms.C37.fixed_begin_query_error_path` only. -/
+def stepPreFix (s : St) : Ev → St × Res
+  | .beginQ c pid =>
+    let s := { s with running := s.running + 1 }
+    match lookup s.procs c with
+    | none => (s, .errNotRegistered)
+    | some _ =>
+      match lookup s.byPid pid with
+      | some _ => (s, .errPidUsed)
+      | none =>
+        let tok := s.nextTok
+        ({ s with nextTok := tok + 1,
+                  procs := insert s.procs c { cmd := .query, pid := pid, kill := some tok, query := some pid },
+                  byPid := insert s.byPid pid c }, .ok tok)
+  | e => step s e
+
+def execPreFix (s : St) (es : List Ev) : St := es.foldl (fun s e => (stepPreFix s e).1) s
 
 /-- The cancel func currently registered for connection `c`. -/
 def held (procs : List (Nat × Proc)) (c : Nat) : Option Nat := (lookup procs c).bind (·.kill)
@@ -275,9 +299,10 @@ def astep (a : ASt) : Ev → Option (ASt × Res)
 
 /-! ### Regions: the calls on which the code that exists departs from the Spec -/
 
-/-- F-C37-a: `BeginQuery` takes one of its two error returns (after it has already counted the
-query as running). -/
-def regionBeginQueryError (a : ASt) : Ev → Bool
+/-- The call class of the *repaired* defect F-C37-a: `BeginQuery` takes one of its two error returns.
+No longer a region (`inRegion` / `regionName` do not mention it): the code now agrees with the Spec
+on these calls (`Gms.C37.beginQuery_refines`), so a disagreement there is a violation again. -/
+def beginQueryErrorCall (a : ASt) : Ev → Bool
   | .beginQ c pid => pid ≠ 0 ∧ ((lookup a.procs c).isNone ∨ (pidOwner a.procs pid).isSome)
   | _ => false
 
@@ -297,11 +322,10 @@ def regionReadyDuringOperation (a : ASt) : Ev → Bool
   | _ => false
 
 def inRegion (a : ASt) (e : Ev) : Bool :=
-  regionBeginQueryError a e || regionRemoveDuringQuery a e || regionReadyDuringOperation a e
+  regionRemoveDuringQuery a e || regionReadyDuringOperation a e
 
 def regionName (a : ASt) (e : Ev) : String :=
-  if regionBeginQueryError a e then "begin_query_error_path"
-  else if regionRemoveDuringQuery a e then "remove_during_query"
+  if regionRemoveDuringQuery a e then "remove_during_query"
   else if regionReadyDuringOperation a e then "ready_during_operation"
   else "-"
 
